@@ -542,7 +542,9 @@ def _witness(goal, conds, maxdefs=None):
     if len(atoms) > 6:
         return None
     grid0 = [0, 1, 2, 3, 5, 8, 13, 40]
-    grids = [[v for v in grid0 if v >= 1] if (a[0] == "inner" and a[2] == "len") or a[0] == "pow2" else grid0 for a in atoms]
+    # lengths first try a natural value (8), requirements start from 0: the first witness found is the one reported
+    glen = [8, 13, 5, 3, 2, 1, 40]
+    grids = [glen if (a[0] == "inner" and a[2] == "len") else ([1, 2, 5, 8] if a[0] == "pow2" else grid0) for a in atoms]
     for vals in product(*grids):
         env = dict(zip(atoms, vals))
         try:
